@@ -9,6 +9,11 @@ package props
 // (2) store(after revert) == store(before apply) as a set of (id, fields, leaf
 // index); (3) every element of that store verifies against the parent state;
 // after re-apply: state encoding, diffs and store (with proofs) byte-identical.
+//
+// Model side (correspondence for REVERT): every reverted block is also sent to
+// the ledger model as `ledger-revert <abstracted parent ledger + block>` and the
+// model's revert report is compared with the real RevertUpdate (same canonical
+// dump as the C01 `ledger-block` comparison, diff lists in revert order).
 
 import (
 	"bytes"
@@ -134,6 +139,7 @@ type c06Record struct {
 	state    []byte   // encoded state after apply
 	diffs    diffLists
 	corner   string
+	modelReq string // abstracted (parent ledger, block) for the model, taken before the apply
 }
 
 func runC06(c *fw.Ctx) {
@@ -141,22 +147,28 @@ func runC06(c *fw.Ctx) {
 	res.Rule = "reorg schedules on random chains (all modes/eras): after a random prefix, repeatedly revert k in [1,depth] tip blocks one by one and re-apply either the very same blocks or a freshly generated competing continuation; per revert: diffs == apply's diffs reversed, store(after revert) == store(before apply) as (id, fields, leaf index) sets, every restored element verifies (independent Merkle check) against the parent state; per re-apply of the same block: encoded State, diffs and store incl. proofs byte-identical to the first apply. A schedule step is non-trivial when the reverted block contains transactions."
 	nChains := c.Budget(30, 1200)
 	depth := c.Budget(4, 20)
+	var ops, outs []string
 	for i := 0; i < nChains; i++ {
 		mode := ledgerModes[i%len(ledgerModes)]
 		seed := c.Seed*7000003 + int64(i)
 		s := chain.NewSim(rand.New(rand.NewSource(seed)), mode)
+		ab := chain.NewAbstractor(s)
 		res.Count("chains:" + mode)
 		var hist []c06Record // hist[k] = record of block at height k+1
 		applyNew := func() bool {
 			pre := s.St.Dump(false)
 			p := s.BuildBlock()
+			var req string
+			if c.Model != nil {
+				req = ab.Abstract(p.Block, p.Supp)
+			}
 			au, err := s.Apply(p.Block, p.Supp)
 			if err != nil {
 				res.Note("generator produced a rejected block (%s seed %d): %v", mode, seed, err)
 				res.Count("generator-rejected")
 				return false
 			}
-			hist = append(hist, c06Record{block: p.Block, supp: p.Supp, preDump: pre, postDump: s.St.Dump(true), state: chain.Encode(s.Tip), diffs: dumpDiffs(au), corner: classifyFCDiffs(au)})
+			hist = append(hist, c06Record{block: p.Block, supp: p.Supp, preDump: pre, postDump: s.St.Dump(true), state: chain.Encode(s.Tip), diffs: dumpDiffs(au), corner: classifyFCDiffs(au), modelReq: req})
 			return true
 		}
 		ok := true
@@ -179,7 +191,13 @@ func runC06(c *fw.Ctx) {
 				reverted = append(reverted, rec)
 				height := s.Height()
 				rp := map[string]any{"mode": mode, "seed": seed, "height": height, "schedule_step": st, "corner": rec.corner}
+				tipBefore := s.Tip
 				ru := s.RevertTip()
+				if c.Model != nil && rec.modelReq != "" {
+					ops = append(ops, "ledger-revert "+rec.modelReq)
+					outs = append(outs, "ok "+ab.DumpRevert(ru, tipBefore, s.Tip))
+					res.Count("model:ledger-revert")
+				}
 				nt := len(rec.block.Transactions)+len(rec.block.V2Transactions()) > 0
 				res.Eval(fmt.Sprintf("%s/%d/%d/%d", mode, seed, st, j), nt)
 				rd := dumpDiffs(ru)
@@ -241,6 +259,12 @@ func runC06(c *fw.Ctx) {
 		}
 		if i == 0 {
 			res.Sample(map[string]any{"mode": mode, "seed": seed, "final_height": s.Height(), "generated": s.Counts})
+		}
+	}
+	if len(ops) > 0 {
+		c.Compare(ops, outs)
+		if len(ops[0]) < 4000 {
+			res.Sample(map[string]string{"model_op": ops[0], "go": outs[0]})
 		}
 	}
 }
